@@ -24,7 +24,7 @@ RULE = ("generated assemblies (BsaI/BbsI/BsmBI + 3 other geometries, 1..4 module
 ASSUMPTIONS = ["references inside one record are pairwise distinct", "citation qualifiers are well-formed [n] with n in range",
                "uncited extra entries in the product's reference list are not a violation"]
 FLOORS = {"c10_judged": 400, "c10_products_with_surviving_citations": 100, "c10_stripped_comparisons": 100, "c10_failed_calls_checked": 200}
-MUST_REACH = ["AssemblyManager._deref_citations", "AssemblyManager._ref_citations"]
+MUST_REACH = ["AbstractVector.assemble", "AssemblyManager._deref_citations", "AssemblyManager._ref_citations"]
 BUDGET_S = {"quick": 900, "thorough": 7200}
 ENZYMES = ["BsaI", "BbsI", "BsmBI", "FokI", "BspQI", "BtgZI"]
 
